@@ -222,11 +222,13 @@ Proof.
   destruct (str_eqb mname n_top).
   { right. destruct H as [|v v' r r' Hv Hr]; [constructor|].
     destruct Hr; inv Hv; try (cbn; constructor; fail).
-    constructor. constructor. destruct (z <? 0); auto. apply Forall2_firstn; auto. }
+    constructor. constructor. destruct (z <? 0); auto.
+    rewrite <- (Forall2_length' _ _ _ Hl). apply Forall2_firstn; auto. }
   destruct (str_eqb mname n_skip).
   { right. destruct H as [|v v' r r' Hv Hr]; [constructor|].
     destruct Hr; inv Hv; try (cbn; constructor; fail).
-    constructor. constructor. destruct (z <? 0); auto. apply Forall2_skipn; auto. }
+    constructor. constructor. destruct (z <? 0); auto.
+    rewrite <- (Forall2_length' _ _ _ Hl). apply Forall2_skipn; auto. }
   destruct (str_eqb mname n_append).
   { right. destruct H as [|v v' r r' Hv Hr]; [constructor|]. destruct Hr; [|constructor].
     constructor. constructor. apply Forall2_app'; auto. }
